@@ -74,6 +74,7 @@ def run(env, rep):
     # get_header_format itself must not be entered when the previous header is droppable (checked above by the constant Full);
     # ------------------------------------------------------------------ R2 provenance
     ok_h, ok_n, why_h = True, 0, []
+    n_cont_skip = 0
     for p in m.add_chunk_paths:
         if not p or p[-1][0] != "end" or p[-1][1] not in ("ok", "ret", "ok|err"):
             continue
@@ -83,6 +84,11 @@ def run(env, rep):
         ins = [t for t in p if t[0] == "mut" and t[1] == "insert" and t[2] == "previous_headers"]
         other = [t for t in p if t[0] == "mut" and t[2] == "previous_headers" and t[1] in ("get_mut", "entry", "remove", "clear")]
         ok_n += 1
+        if not ins and not other and chunk.param_on_path(p, "continued_chunk") is True:
+            # a continuation chunk repeats the header its message's first chunk stored (same message, same flags: serialize
+            # passes them unchanged to every chunk of a message, checked below): leaving the remembered header alone is the same
+            n_cont_skip += 1
+            continue
         if len(ins) != 1:
             ok_h = False
             why_h.append("a path that emits a chunk %s" % ("does not replace the remembered header of the chunk stream (it is %s): the droppable flag of the packet just written is not remembered" % (
